@@ -720,6 +720,10 @@ def features(a, b):
         f.add("has_datetime")
     if any(isinstance(x, float) and (x != x or math.isinf(x)) for x in at):
         f.add("has_nan_inf")
+    if np is not None and any(isinstance(x, np.floating) for x in at):
+        f.add("numpy_float")
+    if np is not None and any(isinstance(x, Decimal) for x in at) and any(isinstance(x, np.generic) for x in at):
+        f.add("decimal_and_numpy")
     for x in at:
         if is_number(x):
             try:
@@ -948,7 +952,12 @@ def m_num_precision(c):
     """equal numbers of different type are rendered differently when the magnitude exceeds what the float detour of
     number_to_string keeps: '{:.12f}'.format(int) goes through float (ints beyond 2^53), numpy's round(x, 12) multiplies by 10^12"""
     return (c["clause"] == "A" and c["exc"] is None and any(x.startswith("numty@") for x in c["altered"])
-            and "huge_number" in c["features"])
+            and ("huge_number" in c["features"] or "numpy_float" in c["features"]))
+
+
+def m_numpy_decimal(c):
+    """Decimal == numpy scalar raises TypeError inside difflib / dict lookups as soon as two such items meet in a list"""
+    return c["exc"] == "TypeError" and "decimal_and_numpy" in c["features"] and c["clause"] in ("A", "C")
 
 
 def m_excl_set(c):
@@ -1045,6 +1054,7 @@ MATCHERS = {
     "C11-SIG0-NAN": m_sig0_nan,
     "C11-EXCL-SET": m_excl_set,
     "C11-NUM-PRECISION": m_num_precision,
+    "C11-NUMPY-DECIMAL-EQ": m_numpy_decimal,
     "C11-EXCL-DEFAULT-LIST": m_excl_default_list,
     "C11-NUMGROUP-DATETIME": m_numgroup_dt,
     "C11-NUM-KEY": m_num_key,
